@@ -26,7 +26,11 @@ theorem C06_tie_constants :
     Gen.qbft_RoundChangeMsgType = 3 ∧ Gen.qbft_NoRound = 0 ∧ Gen.qbft_FirstRound = 1 ∧ Gen.qbft_FirstHeight = 0 ∧
     Gen.qbft_InstanceContainerDefaultCapacity = 2 := by decide
 
-/-- guard / call order inside the node's validation functions, as modelled in Ssv/Model/Qbft/{Validate,Instance}.lean -/
+/-- guard / call order inside the node's validation functions, as modelled in Ssv/Model/Qbft/{Validate,Instance}.lean.
+    Quorum sites: a lone `"HasQuorum"` is the package function `specqbft.HasQuorum(share, msgs)` — DISTINCT signers of a message
+    list (model: `Cfg.hasQuorum (signersOf …)`); `"HasQuorum", "Share.HasQuorum"` (or `"share.HasQuorum"`) is the method
+    `share.HasQuorum(n)` on a COUNT (model: `cfg.quorum ≤ ….length`). The extractor facts list receiver-qualified callee names, so
+    replacing one by the other changes the list. -/
 theorem C06_tie_guard_order :
     Gen.calls_qbft_node_isValidProposal =
       ["GetSigners", "VerifyByOperators", "MatchedSigners", "proposer", "Validate", "HashDataRoot", "isProposalJustification"] ∧
@@ -60,7 +64,7 @@ theorem C06_tie_upon_order :
     Gen.calls_qbft_node_isProposalJustificationForLeadingRound = ["isReceivedProposalJustification", "proposer"] ∧
     Gen.calls_qbft_node_getRoundChangeJustification =
       ["HashDataRoot", "MessagesForRound", "validSignedPrepareForHeightRoundAndRoot", "HasQuorum"] ∧
-    Gen.calls_qbft_node_commitQuorumForRoundRoot = ["LongestUniqueSignersForRoundAndRoot", "HasQuorum"] ∧
+    Gen.calls_qbft_node_commitQuorumForRoundRoot = ["LongestUniqueSignersForRoundAndRoot", "HasQuorum", "Share.HasQuorum"] ∧
     Gen.calls_qbft_node_aggregateCommitMsgs = ["DeepCopy", "Aggregate"] := by decide
 
 /-- port check: every instance function of the node makes the same calls in the same order as its ssv-spec v0.3.7
@@ -97,7 +101,7 @@ theorem C06_tie_controller :
     Gen.calls_qbft_StartNewInstance =
       ["GetValueCheckF", "FindInstance", "addAndStoreNewInstance", "Start", "forceStopAllInstanceExceptCurrent"] ∧
     Gen.calls_qbft_OnTimeout = ["GetTimeoutData", "FindInstance", "IsDecided", "UponRoundTimeout"] ∧
-    Gen.calls_qbft_IsDecidedMsg = ["HasQuorum"] := by decide
+    Gen.calls_qbft_IsDecidedMsg = ["HasQuorum", "share.HasQuorum"] := by decide
 
 /-- compaction is what the model says and where the model says: `compact` rewrites the four containers, both public
     entry points go through it, the runner calls `compactInstanceIfNeeded` right after `Controller.ProcessMsg`, and
